@@ -82,6 +82,12 @@ def mk(kind="list", n: int = 2):
         return None
     if kind == "float":
         return n / 2.0
+    if kind == "tuple":
+        return tuple(range(n))
+    if kind == "pairs":
+        return [(i, str(i)) for i in range(n)]
+    if kind == "set":
+        return set(range(n))
     raise ValueError("unknown kind " + repr(kind))
 
 
